@@ -126,7 +126,12 @@ func (d *wrappedSlidingWindowDetector) Check(seq uint64) (func() bool, bool) {
 			d.latestSeq = seq
 			latest = true
 		}
-		d.mask.SetBit(uint(d.latestSeq - seq))
+		if diff > 0 {
+			// seq is behind the newest number, possibly across the wrap.
+			d.mask.SetBit(uint(diff))
+		} else {
+			d.mask.SetBit(0)
+		}
 
 		return latest
 	}, true
